@@ -119,8 +119,11 @@ def verify_print_with_count(run, tier):
         if ctx.branch(z3.Bool('pwc.inductive_step')):
             i = z3.Int('pwc.i')
             ctx.assume(z3.And(i >= 0, i < iterable.length))
-            # invariant: i items consumed so far, all of them printed, the local counter equals i
-            fr.set('i', SInt(i))
+            # invariant: i items consumed so far, all of them printed; a local counter that the function initialised to 0
+            # before the loop equals i (a loop that takes its index from enumerate() has none)
+            counters = [nm for nm, v in fr.vars.items() if not nm.startswith('$') and isinstance(v, int) and not isinstance(v, bool) and v == 0]
+            for nm in counters:
+                fr.set(nm, SInt(i))
             x = iterable.elem(i)
             before = len(out.items)
             it.assign(stmt.target, x, fr)
@@ -136,9 +139,10 @@ def verify_print_with_count(run, tier):
                 ok = len(new) == 1 and len(new[0][1]) == 1
                 ctx.oblige(prefix + '/prints-the-next-item', z3.And(z3.BoolVal(ok), i != cnt))
                 if ok:
-                    ctx.oblige(prefix + '/prints-the-item-unchanged', z3.BoolVal(_same_text(it, new[0][1][0], x)))
-                ni = it.lookup('i', fr)
-                ctx.oblige(prefix + '/counter-counts-printed-items', zi(ni) == i + 1)
+                    item = getattr(iterable, 'enumerated', iterable).elem(i)       # the stream's own item (enumerate() pairs it with its index)
+                    ctx.oblige(prefix + '/prints-the-item-unchanged', z3.BoolVal(_same_text(it, new[0][1][0], item)))
+                ctx.oblige(prefix + '/counter-counts-printed-items',
+                           z3.And([zi(it.lookup(nm, fr)) == i + 1 for nm in counters]) if counters else z3.BoolVal(True))
             raise pathsmod.PathCut('step')
         return True
     it.symloop_hook = hook
